@@ -1,8 +1,12 @@
-(* C12 — recursive remove and rename touch exactly the named subtree (selection of the subtree).
-   DESIGN.md §3 C12. *)
+(* C12 — recursive remove and rename touch exactly the named subtree.
+   (1) selection: what Delete / Move select below a directory is exactly the live rows under <dir>/ (for all byte strings);
+   (2) effect (Proofs/T02*.v): from every Good state, RemoveAll n removes exactly n and the names below it and leaves every
+       other name's entry untouched; Rename old new moves exactly old and the names below it to the corresponding names
+       under new (same entries), removes nothing else, and refuses to move a directory into itself -- stated pointwise on
+       the namespace (name -> entry).  DESIGN.md section 8. *)
 From Coq Require Import String List NArith ZArith Bool.
 Import ListNotations.
-From STFS Require Import Str Db Tape Index Ops Fs StrLemmas.
+From STFS Require Import Str Db Tape Index Ops Fs Diff StrLemmas C01Str C01Sim T02Ns T02Str T02Spec.
 Open Scope N_scope.
 
 (* what Delete / Move / Restore select below a directory: exactly the live rows whose stored name has
@@ -24,4 +28,55 @@ Theorem C12_like_alone_refuted : exists d n : str,
   sql_like (List.app d (s "/%")) n = true /\ has_prefix (List.app d (s "/")) n = false.
 Proof. exists (s "/a_"), (s "/ab/x"). split; reflexivity. Qed.
 
+(* RemoveAll: pointwise effect on the namespace *)
+Theorem C12_remove_all_touches_exactly_the_subtree : forall (hr : bool) (c : cfg), plain c -> 0 < c_rs c -> c_readonly c = false ->
+  forall s e n v, Good hr c s -> hb_env e -> good n -> n <> [slash] -> lookup (abs s) n = Some v ->
+  let '(s', o) := step c (with_env s e) (CRemoveAll n) in
+  o = OOk /\ forall m, lookup (abs s') m = if eqb_str m n || below n m then None else lookup (abs s) m.
+Proof.
+  intros hr c HP Hrs Hro s e n v HG He Gn Hn Hl.
+  pose proof (T02_remove_all hr c HP Hrs Hro s e n HG He Gn Hn) as H.
+  destruct (step c (with_env s e) (CRemoveAll n)) as [s' o]. destruct H as (_ & Ho & Heq).
+  unfold spec_remove_all in Ho, Heq. rewrite Hl in Ho, Heq. cbn [fst snd] in Ho, Heq.
+  split; [exact Ho|]. intro m. rewrite (Heq m).
+  rewrite (lookup_filter (fun x => eqb_str x n || below n x) (abs s) m). reflexivity.
+Qed.
+(* ... and of a missing name: success, nothing changes *)
+Theorem C12_remove_all_missing_is_noop : forall (hr : bool) (c : cfg), plain c -> 0 < c_rs c -> c_readonly c = false ->
+  forall s e n, Good hr c s -> hb_env e -> good n -> n <> [slash] -> lookup (abs s) n = None ->
+  let '(s', o) := step c (with_env s e) (CRemoveAll n) in
+  o = OOk /\ forall m, lookup (abs s') m = lookup (abs s) m.
+Proof.
+  intros hr c HP Hrs Hro s e n HG He Gn Hn Hl.
+  pose proof (T02_remove_all hr c HP Hrs Hro s e n HG He Gn Hn) as H.
+  destruct (step c (with_env s e) (CRemoveAll n)) as [s' o]. destruct H as (_ & Ho & Heq).
+  unfold spec_remove_all in Ho, Heq. rewrite Hl in Ho, Heq. cbn [fst snd] in Ho, Heq.
+  split; [exact Ho|exact Heq].
+Qed.
+(* Rename: the model does exactly what the reference does (spec_rename: ns_move of the subtree, replacing an empty or
+   same-kind target, refusing a move into the own subtree); a refused or failing rename changes nothing *)
+Theorem C12_rename_is_the_reference_move : forall (hr : bool) (c : cfg), plain c -> 0 < c_rs c -> c_readonly c = false ->
+  forall s e old new, Good hr c s -> hb_env e -> good old -> good new -> new <> [slash] ->
+  let '(s', o) := step c (with_env s e) (CRename old new) in
+  Good hr c s' /\ o = snd (spec_rename (abs s) old new) /\ ns_eq (abs s') (fst (spec_rename (abs s) old new)).
+Proof. exact T02_rename. Qed.
+Theorem C12_rename_into_own_subtree_refused : forall (hr : bool) (c : cfg), plain c -> 0 < c_rs c -> c_readonly c = false ->
+  forall s e old new sv, Good hr c s -> hb_env e -> good old -> good new -> new <> [slash] -> old <> [slash] ->
+  lookup (abs s) old = Some sv -> is_dir sv = true -> old <> new -> has_prefix (pfx old) new = true ->
+  let '(s', o) := step c (with_env s e) (CRename old new) in
+  o = OInvalid /\ forall m, lookup (abs s') m = lookup (abs s) m.
+Proof.
+  intros hr c HP Hrs Hro s e old new sv HG He Go Gn Hn Hold Hl Hd Hne Hp.
+  pose proof (T02_rename hr c HP Hrs Hro s e old new HG He Go Gn Hn) as H.
+  destruct (step c (with_env s e) (CRename old new)) as [s' o]. destruct H as (_ & Ho & Heq).
+  unfold spec_rename in Ho, Heq.
+  replace (eqb_str old [slash]) with false in Ho, Heq by (symmetry; apply eqb_str_neq; exact Hold).
+  rewrite Hl in Ho, Heq.
+  replace (eqb_str old new) with false in Ho, Heq by (symmetry; apply eqb_str_neq; exact Hne).
+  rewrite Hd, Hp in Ho, Heq. cbn [andb fst snd] in Ho, Heq. split; [exact Ho|exact Heq].
+Qed.
+
 Print Assumptions C12_children_exact.
+Print Assumptions C12_remove_all_touches_exactly_the_subtree.
+Print Assumptions C12_rename_is_the_reference_move.
+Print Assumptions C12_rename_into_own_subtree_refused.
